@@ -11,7 +11,7 @@
 (***************************************************************************)
 EXTENDS Integers, Sequences, FiniteSets, TLC
 
-VARIABLES phase,      \* "hs" (waiting for the client's handshake) | "open" | "closed"
+VARIABLES phase,      \* "hs" (waiting for the client's handshake) | "chs" (nexus connects: waiting for the server's reply) | "open" | "closed"
           ser,        \* agreed serializer: 1 JSON, 2 MessagePack, 3 CBOR
           sendLimit,  \* largest message the router side may send (announced by the client)
           recvLimit,  \* largest message the router side accepts (announced by the router)
@@ -55,6 +55,25 @@ Handshake(magicOK, lenNibble, serNibble, reservedZero) ==
           /\ wobs' = [NoObs EXCEPT !.reply = <<"ok", FitNibble(cfgLimit), serNibble>>]
 
 \* --------------------------------------------------------------------------
+\* The same peer as the connecting side (transport.ConnectRawSocketPeer, clientHandshake): it has
+\* written magic, FitNibble(its configured receive limit), the serializer it wants (`ser') and two
+\* zero octets; the other end answers with four octets - magic ok?, high nibble, low nibble - or
+\* hangs up.  Low nibble = the serializer agreed (must be the one asked for); low nibble 0 = an error
+\* reply whose code is the high nibble.  Agreement: this side may send what the server announced
+\* (high nibble) and accepts what it announced itself.  Anything else: the connect attempt fails and
+\* the connection is closed.  Afterwards both roles are the same peer: Frame, Send, Race, Eof.
+ServerReply(magicOK, hi, lo, hangup) ==
+  /\ phase = "chs"
+  /\ UNCHANGED <<cfgLimit, ser>>
+  /\ IF ~hangup /\ magicOK /\ lo = ser
+     THEN /\ phase' = "open"
+          /\ sendLimit' = LimitOf(hi)
+          /\ recvLimit' = LimitOf(FitNibble(cfgLimit))
+          /\ wobs' = [NoObs EXCEPT !.reply = <<"ok", FitNibble(cfgLimit), ser>>]
+     ELSE /\ phase' = "closed" /\ UNCHANGED <<sendLimit, recvLimit>>
+          /\ wobs' = [NoObs EXCEPT !.reply = <<"error", FitNibble(cfgLimit), ser>>, !.closed = TRUE]
+
+\* --------------------------------------------------------------------------
 \* a frame from the client: type bits, announced length, what follows the header:
 \*   "msg"   = that many octets that are a well-formed message (tagged id)
 \*   "junk"  = that many octets that do not decode
@@ -85,9 +104,25 @@ Send(n, id) ==
   /\ UNCHANGED <<phase, ser, sendLimit, recvLimit, cfgLimit>>
   /\ wobs' = [NoObs EXCEPT !.frames = IF n <= sendLimit /\ n <= MaxFrame THEN <<[type |-> 0, len |-> n, id |-> id]>> ELSE <<>>]
 
+\* Two writers, one connection (spec/WireConc.tla): the router hands `msgs' messages of n octets
+\* (ids id, id+1, ...) to the peer while `pings' PINGs of the client (payload length len, tags
+\* id+100, ...) are being answered.  Whatever the interleaving of the two goroutines' write calls,
+\* the client reads whole frames: the messages in order, the PONGs in order, nothing else.
+\* f = the frames the client read (the interleaving is the implementation's choice).
+Race(msgs, pings, n, len, id, f) ==
+  /\ phase = "open"
+  /\ UNCHANGED <<phase, ser, sendLimit, recvLimit, cfgLimit>>
+  /\ n <= sendLimit /\ n <= MaxFrame
+  /\ SelectSeq(f, LAMBDA x : x.type = 0) = [k \in 1..msgs |-> [type |-> 0, len |-> n, id |-> id + k - 1]]
+  /\ SelectSeq(f, LAMBDA x : x.type = 2) = [k \in 1..pings |-> [type |-> 2, len |-> len, id |-> (id + 99 + k) % 256]]
+  /\ Len(f) = msgs + pings
+  /\ wobs' = [NoObs EXCEPT !.frames = f]
+
 \* the client hangs up
 Eof == /\ phase \in {"hs", "open"} /\ End /\ wobs' = [NoObs EXCEPT !.closed = TRUE]
 
 WInitWith(limit) == phase = "hs" /\ ser = 0 /\ sendLimit = 0 /\ recvLimit = 0 /\ cfgLimit = limit /\ wobs = NoObs
+WInitClient(limit, s)  == phase = "chs" /\ ser = s /\ sendLimit = 0 /\ recvLimit = 0 /\ cfgLimit = limit /\ wobs = NoObs
+WResetClient(limit, s) == phase' = "chs" /\ ser' = s /\ sendLimit' = 0 /\ recvLimit' = 0 /\ cfgLimit' = limit /\ wobs' = NoObs
 WResetTo(limit)  == phase' = "hs" /\ ser' = 0 /\ sendLimit' = 0 /\ recvLimit' = 0 /\ cfgLimit' = limit /\ wobs' = NoObs
 =============================================================================
